@@ -44,6 +44,7 @@ type ndRange struct {
 }
 
 type cidLevel struct {
+	Name   string // CMap name ("" -> Verif-L<i>); may collide with a predefined name
 	Data   map[charcode.Code]cid.CID
 	NdOne  []ndRange // notdef singles (First == Last, used as Code)
 	NdRng  []ndRange
@@ -51,11 +52,26 @@ type cidLevel struct {
 	HasROS bool
 }
 
+// baseFile: a hand-made file (arbitrary singles and ranges: overlapping, wide) or a predefined CMap below the
+// levels that SetMapping builds.  Predef: the file is (part of the parent chain of) the predefined object
+// itself, referred to by name in the PDF; its lists are only read for the expectations.
+type baseFile struct {
+	Name      string
+	Predef    bool
+	WMode     int
+	Singles   []rawSingle
+	Ranges    []rawRange
+	NdSingles []rawSingle
+	NdRanges  []rawRange
+}
+
 type cidCase struct {
 	CSR    charcode.CodeSpaceRange
+	Base   []baseFile // root first, below Levels
 	Levels []cidLevel // root first
 	Probes [][]byte
 	Class  string
+	NoAll  bool // wide ranges: the enumeration is cut by the budget of All(), only lookups are compared
 }
 
 type tuCase struct {
@@ -485,6 +501,82 @@ func ndLookupLevel(l *cidLevel, c []byte) (uint32, bool) {
 	return 0, false
 }
 
+// position of code in the box first..last, last byte fastest (independent of the implementation)
+func refRangeIndex(first, last, code []byte) (int64, bool) {
+	if len(first) != len(code) || len(last) != len(code) {
+		return 0, false
+	}
+	var acc int64
+	for i, b := range code {
+		if b < first[i] || b > last[i] {
+			return 0, false
+		}
+		acc = acc*(int64(last[i])-int64(first[i])+1) + int64(b-first[i])
+		if acc > 0x7fffffff {
+			return 0, false
+		}
+	}
+	return acc, true
+}
+
+// what a chain of hand-made files maps c to: child first, singles before ranges, first match
+func baseMapped(base []baseFile, c []byte) (uint32, bool) {
+	for i := len(base) - 1; i >= 0; i-- {
+		for _, s := range base[i].Singles {
+			if bytes.Equal(s.Code, c) {
+				return s.Value, true
+			}
+		}
+		for _, r := range base[i].Ranges {
+			if idx, ok := refRangeIndex(r.First, r.Last, c); ok {
+				return r.Value + uint32(idx), true
+			}
+		}
+	}
+	return 0, false
+}
+
+func baseNotdef(base []baseFile, c []byte) (uint32, bool) {
+	for i := len(base) - 1; i >= 0; i-- {
+		for _, s := range base[i].NdSingles {
+			if bytes.Equal(s.Code, c) {
+				return s.Value, true
+			}
+		}
+		for _, r := range base[i].NdRanges {
+			if inBox(r.First, r.Last, c) {
+				return r.Value, true
+			}
+		}
+	}
+	return 0, false
+}
+
+// what maps.Collect keeps of the enumeration of the base chain: root first, ranges then singles, last write wins
+func (cs *cidCase) baseCollect() map[charcode.Code]cid.CID {
+	m := map[charcode.Code]cid.CID{}
+	for _, b := range cs.Base {
+		for _, r := range b.Ranges {
+			if !inBox(r.First, r.Last, r.First) {
+				continue
+			}
+			cur, ok := bytes.Clone(r.First), true
+			for i := uint32(0); ok; i++ {
+				if inCSR(cs.CSR, cur) {
+					m[codeOf(cur)] = cid.CID(r.Value + i)
+				}
+				cur, ok = boxNext(charcode.Range{Low: r.First, High: r.Last}, cur)
+			}
+		}
+		for _, s := range b.Singles {
+			if inCSR(cs.CSR, s.Code) {
+				m[codeOf(s.Code)] = cid.CID(s.Value)
+			}
+		}
+	}
+	return m
+}
+
 // the notdef CID of a code: nearest level (child first) with a matching notdef entry
 func (cs *cidCase) wantNotdef(c []byte) uint32 {
 	for i := len(cs.Levels) - 1; i >= 0; i-- {
@@ -492,7 +584,8 @@ func (cs *cidCase) wantNotdef(c []byte) uint32 {
 			return v
 		}
 	}
-	return 0
+	v, _ := baseNotdef(cs.Base, c)
+	return v
 }
 
 // listedEntries: which entries may be absent from the enumeration.  SetMapping may leave out an entry
@@ -503,8 +596,8 @@ func (cs *cidCase) listedEntries(codec *charcode.Codec) []map[charcode.Code]uint
 	for i := range cs.Levels {
 		m := map[charcode.Code]uint32{}
 		for k, v := range cs.Levels[i].Data {
-			if i > 0 {
-				sub := cidCase{CSR: cs.CSR, Levels: cs.Levels[:i]}
+			if i > 0 || len(cs.Base) > 0 {
+				sub := cidCase{CSR: cs.CSR, Base: cs.Base, Levels: cs.Levels[:i]}
 				if below, ok := sub.wantMapped(codec.AppendCode(nil, k)); ok && below == uint32(v) {
 					continue
 				}
@@ -527,7 +620,7 @@ func isListed(ent []map[charcode.Code]uint32, code charcode.Code) bool {
 
 func (cs *cidCase) wantMapped(c []byte) (uint32, bool) {
 	if !inCSR(cs.CSR, c) {
-		return 0, false
+		return baseMapped(cs.Base, c)
 	}
 	code := codeOf(c)
 	for i := len(cs.Levels) - 1; i >= 0; i-- {
@@ -535,11 +628,11 @@ func (cs *cidCase) wantMapped(c []byte) (uint32, bool) {
 			return uint32(v), true
 		}
 	}
-	return 0, false
+	return baseMapped(cs.Base, c)
 }
 
 func (cs *cidCase) wantAll() map[charcode.Code]cid.CID {
-	m := map[charcode.Code]cid.CID{}
+	m := cs.baseCollect()
 	for _, l := range cs.Levels {
 		for k, v := range l.Data {
 			m[k] = v
@@ -599,12 +692,56 @@ func toSingles(nd []ndRange) []cmap.Single {
 	return res
 }
 
+func toCIDSingles(ss []rawSingle) []cmap.Single {
+	var res []cmap.Single
+	for _, s := range ss {
+		res = append(res, cmap.Single{Code: s.Code, Value: cid.CID(s.Value)})
+	}
+	return res
+}
+
+func toCIDRanges(rr []rawRange) []cmap.Range {
+	var res []cmap.Range
+	for _, r := range rr {
+		res = append(res, cmap.Range{First: r.First, Last: r.Last, Value: cid.CID(r.Value)})
+	}
+	return res
+}
+
 func (cs *cidCase) build(codec *charcode.Codec) *cmap.File {
 	var f *cmap.File
+	for i, b := range cs.Base {
+		if b.Predef {
+			// only the topmost predefined file is referred to; its parents come with it
+			if i+1 == len(cs.Base) || !cs.Base[i+1].Predef {
+				p, err := cmap.Predefined(b.Name)
+				if err != nil {
+					panic(err)
+				}
+				f = p
+			}
+			continue
+		}
+		f = &cmap.File{
+			Name:           b.Name,
+			ROS:            &cid.SystemInfo{Registry: "Verif", Ordering: fmt.Sprintf("B%d", i)},
+			WMode:          font.WritingMode(b.WMode),
+			CodeSpaceRange: cs.CSR,
+			CIDSingles:     toCIDSingles(b.Singles),
+			CIDRanges:      toCIDRanges(b.Ranges),
+			NotdefSingles:  toCIDSingles(b.NdSingles),
+			NotdefRanges:   toCIDRanges(b.NdRanges),
+			Parent:         f,
+		}
+	}
 	for i := range cs.Levels {
 		l := &cs.Levels[i]
+		name := l.Name
+		if name == "" {
+			name = fmt.Sprintf("Verif-L%d", i)
+		}
 		g := &cmap.File{
-			Name:          fmt.Sprintf("Verif-L%d", i),
+			Name:          name,
 			WMode:         font.WritingMode(l.WMode),
 			NotdefSingles: toSingles(l.NdOne),
 			NotdefRanges:  toRanges(l.NdRng),
@@ -692,7 +829,33 @@ func (cs *cidCase) describe() map[string]any {
 	for _, l := range cs.Levels {
 		lv = append(lv, map[string]any{"map": cidMapWire(l.Data), "notdef_singles": fmt.Sprint(l.NdOne), "notdef_ranges": fmt.Sprint(l.NdRng), "wmode": l.WMode})
 	}
-	return map[string]any{"kind": "cid", "csr": csrWire(cs.CSR), "levels_root_first": lv, "class": cs.Class}
+	var bs []any
+	for _, b := range cs.Base {
+		if b.Predef {
+			bs = append(bs, "predefined "+b.Name)
+		} else {
+			bs = append(bs, map[string]any{"name": b.Name, "singles": baseSinglesWire(b.Singles), "ranges": baseRangesWire(b.Ranges)})
+		}
+	}
+	return map[string]any{"kind": "cid", "csr": csrWire(cs.CSR), "handmade_parents_root_first": bs, "levels_root_first": lv, "class": cs.Class}
+}
+
+func baseSinglesWire(ss []rawSingle) string {
+	var sb strings.Builder
+	fmt.Fprintf(&sb, "%d", len(ss))
+	for _, x := range ss {
+		fmt.Fprintf(&sb, " %s %d", common.Hex(x.Code), x.Value)
+	}
+	return sb.String()
+}
+
+func baseRangesWire(rr []rawRange) string {
+	var sb strings.Builder
+	fmt.Fprintf(&sb, "%d", len(rr))
+	for _, x := range rr {
+		fmt.Fprintf(&sb, " %s %s %d", common.Hex(x.First), common.Hex(x.Last), x.Value)
+	}
+	return sb.String()
 }
 
 func (cs *tuCase) describe() map[string]any {
@@ -744,8 +907,22 @@ func (t *runner) checkCIDFile(cs *cidCase, f *cmap.File, codec *charcode.Codec, 
 	// SetMapping leaves out what the parent already answers; for a code the parent chain does
 	// not map that answer is the notdef CID, so such an entry may be absent from the enumeration
 	// (lookup is unaffected: it was checked above for every mapped code)
+	if cs.NoAll {
+		return
+	}
 	wantAll := cs.wantAll()
 	mayOmit := func(k charcode.Code) bool { return !isListed(ent, k) }
+	if len(cs.Base) > 0 {
+		// below hand-made parents (whose entries may overlap: first match for lookup, last write in the
+		// enumeration) an omitted entry leaves what the parents enumerate for its code
+		wantAll = cs.baseCollect()
+		for _, m := range ent {
+			for k, v := range m {
+				wantAll[k] = cid.CID(v)
+			}
+		}
+		mayOmit = nil
+	}
 	if d := diffCID(collectCID(f, codec), wantAll, mayOmit); d != "" {
 		e.Fail("cid-all-"+stage, "All() differs from the map: "+d+" ("+stage+")", desc)
 	}
@@ -830,7 +1007,7 @@ func (t *runner) runCID(cs *cidCase, withModel bool) {
 	for _, l := range cs.Levels {
 		total += len(l.Data)
 	}
-	e.Count(total > 1, "C|"+csrWire(cs.CSR)+"|"+fmt.Sprint(desc["levels_root_first"]), "cid/"+cs.Class+fmt.Sprintf("/levels=%d", len(cs.Levels)))
+	e.Count(total > 1, "C|"+csrWire(cs.CSR)+"|"+fmt.Sprint(desc["handmade_parents_root_first"])+fmt.Sprint(desc["levels_root_first"]), "cid/"+cs.Class+fmt.Sprintf("/parents=%d/levels=%d", len(cs.Base), len(cs.Levels)))
 
 	var f *cmap.File
 	var perr string
@@ -856,7 +1033,15 @@ func (t *runner) runCID(cs *cidCase, withModel bool) {
 			caseID = id
 		}
 		var sb strings.Builder
-		fmt.Fprintf(&sb, "%s C %s %d", id, csrWire(cs.CSR), len(cs.Levels))
+		all := 1
+		if cs.NoAll {
+			all = 0
+		}
+		fmt.Fprintf(&sb, "%s C %s %d %d", id, csrWire(cs.CSR), all, len(cs.Base))
+		for _, b := range cs.Base {
+			fmt.Fprintf(&sb, " %s %s %s %s", baseSinglesWire(b.Singles), baseRangesWire(b.Ranges), baseSinglesWire(b.NdSingles), baseRangesWire(b.NdRanges))
+		}
+		fmt.Fprintf(&sb, " %d", len(cs.Levels))
 		for _, l := range cs.Levels {
 			fmt.Fprintf(&sb, " %s %d", cidMapWire(l.Data), len(l.NdOne))
 			for _, s := range l.NdOne {
@@ -874,20 +1059,30 @@ func (t *runner) runCID(cs *cidCase, withModel bool) {
 			lk = append(lk, fmt.Sprint(uint32(f.LookupCID(p))))
 		}
 		// projection: an entry whose CID is the notdef result of its code may or may not be listed
-		listed := collectCID(f, codec)
-		for k, v := range listed {
-			if f.LookupNotdefCID(codec.AppendCode(nil, k)) == v {
-				delete(listed, k)
+		aobs := "A=skipped"
+		if !cs.NoAll {
+			listed := collectCID(f, codec)
+			for k, v := range listed {
+				if f.LookupNotdefCID(codec.AppendCode(nil, k)) == v {
+					delete(listed, k)
+				}
 			}
+			aobs = "A=" + cidMapWire(listed)
 		}
-		e.Line("impl.obs", "%s L=%s A=%s", id, strings.Join(lk, ","), cidMapWire(listed))
+		e.Line("impl.obs", "%s L=%s %s", id, strings.Join(lk, ","), aobs)
 		wm := ""
+		streams, predef := 0, "-"
 		for h := f; h != nil; h = h.Parent {
+			if h.IsPredefined() {
+				predef = h.Name
+				break
+			}
 			wm += fmt.Sprint(int(h.WMode))
+			streams++
 		}
 		if doText {
-			t.expectB(id, "C", cs.CSR, len(cs.Levels), cs.Probes,
-				fmt.Sprintf("L=%s A=%s W=%s S=%s", strings.Join(lk, ","), cidMapWire(listed), wm, csrSorted(f.CodeSpaceRange)))
+			t.expectB(id, "C", cs.CSR, streams, predef, cs.Probes,
+				fmt.Sprintf("L=%s %s W=%s S=%s", strings.Join(lk, ","), aobs, wm, csrSorted(f.CodeSpaceRange)))
 		}
 		e.Sample(3, fmt.Sprintf("cid csr=[%s] levels=%v -> singles=%d ranges=%d", csrWire(cs.CSR), desc["levels_root_first"], len(f.CIDSingles), len(f.CIDRanges)))
 	}
@@ -907,21 +1102,27 @@ func (t *runner) runCID(cs *cidCase, withModel bool) {
 		for h := g; h != nil; h = h.Parent {
 			depth++
 		}
-		if depth != len(cs.Levels) {
-			e.Fail("cid-parent-chain-"+stage, fmt.Sprintf("extracted chain has %d files, embedded %d", depth, len(cs.Levels)), d2)
+		want := 0
+		for o := f; o != nil; o = o.Parent {
+			want++
+		}
+		if depth != want {
+			e.Fail("cid-parent-chain-"+stage, fmt.Sprintf("extracted chain has %d files, embedded %d", depth, want), d2)
 			return nil
 		}
-		h, o := g, f
-		for i := len(cs.Levels) - 1; i >= 0; i-- {
+		for h, o := g, f; o != nil; h, o = h.Parent, o.Parent {
 			if d := sameCodeSpace(o.CodeSpaceRange, h.CodeSpaceRange, cs.Probes); d != "" {
 				e.Fail("cid-codespace-"+stage, "code space changed: "+d, d2)
 				return nil
 			}
-			if int(h.WMode) != cs.Levels[i].WMode {
-				e.Fail("cid-wmode-"+stage, fmt.Sprintf("WMode %d became %d", cs.Levels[i].WMode, h.WMode), d2)
+			if h.WMode != o.WMode {
+				e.Fail("cid-wmode-"+stage, fmt.Sprintf("WMode %d became %d", o.WMode, h.WMode), d2)
 				return nil
 			}
-			h, o = h.Parent, o.Parent
+			if o.IsPredefined() != h.IsPredefined() {
+				e.Fail("cid-parent-chain-"+stage, fmt.Sprintf("file %q: predefined object before embedding: %v, after extraction: %v", o.Name, o.IsPredefined(), h.IsPredefined()), d2)
+				return nil
+			}
 		}
 		codec2, err := g.Codec()
 		if err != nil {
@@ -1001,7 +1202,7 @@ func (t *runner) runTU(cs *tuCase, withModel bool) {
 		gm, _ := f.GetMapping()
 		e.Line("impl.obs", "%s L=%s A=%s G=%s", id, strings.Join(lk, ","), tuMapWire(collectTU(f, codec)), tuMapWire(gm))
 		if doText {
-			t.expectB(id, "T", cs.CSR, len(cs.Levels), cs.Probes,
+			t.expectB(id, "T", cs.CSR, len(cs.Levels), "-", cs.Probes,
 				fmt.Sprintf("L=%s A=%s S=%s", strings.Join(lk, ","), tuMapWire(collectTU(f, codec)), csrSorted(f.CodeSpaceRange)))
 		}
 		e.Sample(6, fmt.Sprintf("tounicode csr=[%s] levels=%v -> singles=%d ranges=%d", csrWire(cs.CSR), desc["levels_root_first"], len(f.Singles), len(f.Ranges)))
@@ -1598,6 +1799,17 @@ func main() {
 		withModel := class == "runs" || i%200 == 7 || i%400 == 13
 		t.runCID(t.genCIDCase(class), withModel)
 		t.runTU(t.genTUCase(class), withModel)
+	}
+	// parent chains that SetMapping did not build: hand-made (overlapping, wide), predefined names, predefined objects
+	n = e.Pick(400, 6000)
+	for i := 0; i < n; i++ {
+		kind := i % 4
+		if kind == 3 && i%5 != 3 { // the predefined objects are large: fewer of them
+			kind = 0
+		}
+		if cs := t.genParentCase(kind); cs != nil {
+			t.runCID(cs, true)
+		}
 	}
 	n = e.Pick(3000, 100000)
 	for i := 0; i < n; i++ {
